@@ -35,6 +35,12 @@ TEXT = {
 
 TEXT['C19'] = ("Kani/CBMC on the real interpolate.rs: complete proof of is_valid_cap_letter over all byte values; bounded comparison (all templates up to 4 bytes quick / 6 bytes thorough) of find_cap_ref with an executable form of the regex library's documented reference grammar; one listed known finding (braced references). The expansion loop and the printers' replacement path are not verified.",
                "bounded function-vs-spec-function check with Kani on the real source (include!); Verus cannot take this file (closures with reference patterns, str parsing)")
+TEXT['C15'] = ("Deductive proof (Verus/Z3) that main.rs::run computes the exit status demanded by the property (0 iff matched and (quiet or no error); 2 iff not that and an error occurred; else 1; a parse error is an Err) for every parse result, mode and value of the match/quiet/error facts.",
+               "contract-based deductive verification (Verus) of crates/core/main.rs::run over an abstract environment")
+TEXT['C18'] = ("Deductive proof (Verus/Z3) of CommandReader::close for every exit status / wait error / stderr content: waits exactly once, Ok iff success or (early stop and empty stderr), failure surfaces otherwise, idempotent.",
+               "contract-based deductive verification (Verus) of crates/cli/src/process.rs CommandReader::close over an abstract child process")
+TEXT['C09'] = ("Deductive proof (Verus/Z3) of the decimal rendering used for every printed line number, column and byte offset (DecimalFormatter, all u64 values), plus the searcher-side proof that the coordinates and bytes handed to the printers are the input's own (Core::sink_* postconditions). The printers' write paths are not verified.",
+               "contract-based deductive verification (Verus): DecimalFormatter against a recursive decimal spec; event coordinates from the searcher unit")
 checks = []
 for pid in sorted(props):
     text, tech = TEXT.get(pid, ("Deductive proof (Verus) of the contracted functions listed in evidence.", "contract-based deductive verification (Verus)"))
